@@ -31,7 +31,7 @@ CfgsC14 == CfgsC14base \cup { WithPerIP(c) : c \in CfgsC14base }
 ReqsC17 == { MkReq("1.1", "none", "ok", FALSE), MkReq("1.1", "none", "hijack", FALSE),
              MkReq("1.1", "none", "hijacknr", FALSE), MkReq("1.1", "close", "hijack", FALSE),
              MkReq("1.1", "Upgrade", "hijack", FALSE), MkReq("1.0", "none", "hijack", FALSE),
-             MkReq("1.1", "none", "hijack", TRUE) }
+             MkReq("1.1", "none", "hijack", TRUE), MkReq("1.1", "none", "nrflag", FALSE) }
 CfgsC17 == { MkCfg(dk, 0, rmu, vs, kh) : dk \in BoolSet, rmu \in BoolSet, vs \in BoolSet, kh \in BoolSet }
 
 Obs == [ cfg |-> cfg, batches |-> batches, clientClosed |-> cliClosed, states |-> states,
